@@ -55,6 +55,11 @@ CLAIMED["C38"] = dict(engine="volsim", design="§6 C38, §3.3",
    technique=TECH + "scheduler-chosen operation order and async-batch composition (worker parked at an H2 yield while requests queue), failing batch sync; recorded invoke/return history checked for linearizability with porcupine against a per-key register",
    text="2-4 simulated clients issue uploads (immediate and batched fsync path), deletes and reads on the real Store/Volume; the scheduler decides who runs next and how many requests pile up before the async worker processes a batch; histories (<= ~30 operations, unique values, final reads included) are checked with porcupine. Reads apply the volume server handler's cookie rule. The race-detector clause of the statement is not decided by this technique.",
    note=VOLNOTE + " Return events are stamped when the scheduler observes completion (never earlier than the real return), which can only weaken real-time constraints, never invent them.")
+CLUSTERNOTE = "Trusted: the simulated network (in-memory gRPC connections with gated client interceptors, in-process HTTP round trips), the RaftStub, the single bubble clock (no per-node skew). Real master and volume server objects run unmodified; TCP, kernel and real raft are not simulated. Partitions are per destination."
+CLAIMED["C14"] = dict(engine="cluster", design="§6 C14, §3.4",
+   technique=TECH + "real master and volume servers on a simulated network; every vacuum RPC parked and released per plan with per-(replica, phase) verdicts ok / request dropped / response lost / delayed past the time-out and a chosen completion order; invariants at the wire and end-state comparison of replicas",
+   text="The master's own Topology.Vacuum runs against 1-3 real volume servers holding a replicated volume with garbage; each check/compact/commit/cleanup RPC is parked on the simulated network and released with a plan-chosen verdict and order (fake clock lets the 1- and 3-minute phase time-outs fire); client uploads happen during and after the round. Checked: no commit to a replica whose compaction was not acknowledged in the round; every key reads identically from every replica and live blobs are intact; the volume is writable three heartbeats after the round exactly if it was before.",
+   note=CLUSTERNOTE)
 
 PLANNED = {}
 
